@@ -76,8 +76,8 @@ Proof.
   cbn [orb] in H.
   destruct (String.eqb_spec t "SHT_DYNAMIC") as [E0|N13]. { subst t.  to_record H. known "SHT_DYNAMIC" nm. }
   destruct (String.eqb_spec t "SHT_NOTE") as [E0|N14]. { subst t.  to_record H. known "SHT_NOTE" nm. }
-  destruct (String.eqb_spec t "SHT_PROGBITS") as [->|N15].
-  { str_const. cbn [andb] in H. unfold spec_kind, kind_entry. str_const. cbn [andb]. unfold STAB_NAME.
+  destruct (String.eqb_spec t "SHT_PROGBITS") as [E0|N15].
+  { subst t. str_const. cbn [andb] in H. unfold spec_kind, kind_entry. str_const. cbn [andb]. unfold STAB_NAME.
     destruct (bytes_eqb nm [46; 115; 116; 97; 98]);
       apply mk_sect_inv in H; subst sec; cbn; auto. }
   cbn [andb] in H.
@@ -100,10 +100,10 @@ Proof.
   unfold make_segment. generalize (hty h "p_type"). intros ty H.
   destruct ty as [z|bs|zs|t]; try (inversion H; subst g; cbn; auto).
   cbn [is_name] in H.
-  destruct (String.eqb_spec t "PT_INTERP") as [E0|N1]. {{ subst t. inversion H; subst g; cbn; auto|].
-  destruct (String.eqb_spec t "PT_DYNAMIC") as [->|N2].
-  { inv_chain H. inversion H; subst g; cbn; auto. }
-  destruct (String.eqb_spec t "PT_NOTE") as [E0|N3]. {{ subst t. inversion H; subst g; cbn; auto|].
+  destruct (String.eqb_spec t "PT_INTERP") as [E0|N1]. { subst t. inversion H; subst g; cbn; auto. }
+  destruct (String.eqb_spec t "PT_DYNAMIC") as [E0|N2].
+  { subst t. inv_chain H. inversion H; subst g; cbn; auto. }
+  destruct (String.eqb_spec t "PT_NOTE") as [E0|N3]. { subst t. inversion H; subst g; cbn; auto. }
   inversion H; subst g. cbn [g_hdr g_kind spec_segment_kind]. split; [reflexivity|].
   unfold segment_kind_table. cbn [assoc_str].
   rewrite (proj2 (String.eqb_neq _ _) (not_eq_sym N1)), (proj2 (String.eqb_neq _ _) (not_eq_sym N2)),
